@@ -387,3 +387,67 @@ package nbs
 //@   property C42
 //@   requires !verif_ghost.bPutOK && writeHook == nil
 //@   ensures  err == nil ==> (verif_ghost.bPutOK && mc.lock == newContents.lock && mc.root == newContents.root) || mc.lock == verif_ghost.bReadLock
+
+// ---- parsers of on-disk formats: any bytes either give an error or a well-formed result, never a panic (C10)
+
+// NewCompressedChunk: no precondition on the bytes; the only content gate on the read path is this CRC.
+//@ func NewCompressedChunk
+//@   property C10 C01
+//@   nopanic
+//@   ensures  result1 == nil ==> len(buff) >= 4 && crc(buff[:len(buff)-4]) == verif_be32(buff[len(buff)-4:])
+//@   ensures  result1 == nil ==> result0.H == h && len(result0.FullCompressedChunk) == len(buff) && len(result0.CompressedData) == len(buff) - 4
+//@   modifies nothing
+//@   ghost_set verif_ghost.crcChecked = (result1 == nil)
+
+// snappy-format archive chunks are only ever returned through NewCompressedChunk's CRC check
+//@ func (*archiveReader).decompress
+//@   property C10
+//@   requires !verif_ghost.crcChecked
+//@   ensures  dict == nil && result1 == nil ==> verif_ghost.crcChecked
+
+//@ extern (io.Seeker).Seek as verif_x_ReadSeeker_Seek
+//@   modifies nothing
+
+//@ func ReadTableFooter
+//@   property C10
+//@   nopanic
+//@   requires rd != nil
+
+// newOnHeapTableIndex: an index is accepted only if the buffer has exactly the size the chunk count implies,
+// and the accepted index satisfies the length invariant all accessors rely on.
+//@ func newOnHeapTableIndex
+//@   property C10 C06
+//@   nopanic
+//@   requires uint64(len(offsetsBuff1)) == 8*(uint64(count)-uint64(count)/2)
+//@   ensures  result1 == nil ==> uint64(len(indexBuff)) == 28*uint64(count) + 20
+//@   ensures  result1 == nil ==> result0.count == count && verif_wf_index(result0)
+
+//@ extern strings.Split as verif_x_strings_Split
+//@   ensures len(parts) >= 1
+//@   modifies nothing
+
+//@ func parseSpecs
+//@   property C10
+//@   nopanic
+//@   loop 1
+//@     invariant 0 <= i && len(specs) == len(tableInfo)/2
+
+//@ func parseV5Manifest
+//@   property C10
+//@   nopanic
+//@   requires r != nil
+//@ func parseV4Manifest
+//@   property C10
+//@   nopanic
+//@   requires r != nil
+
+// Known finding (recorded in /verif/known_findings.json): nothing the parser checks bounds the ordinals stored in
+// the prefix tuples, so with only the parser-established facts the suffix lookup can index out of range.
+//@ lemma verif_lemma_c10_suffix_any_index
+//@   property C10
+//@   requires verif_wf_index(ti) && idx < ti.count
+
+// hash.MaybeParse validates its input with a regular expression before decoding 32 base32 characters into
+// 20 bytes; that it never panics is assumed (regexp and base32 are outside the verified subset).
+//@ extern github.com/dolthub/dolt/go/store/hash.MaybeParse as verif_x_hash_MaybeParse
+//@   modifies nothing
